@@ -88,6 +88,20 @@ func flowRender(name string, ops [][2]string) string {
 			b.WriteString("{ panic := func(interface{}) {}; panic(\"x\") }\n")
 		case "call":
 			b.WriteString("g0()\n")
+		case "assign":
+			b.WriteString("xi = 1\n")
+		case "define":
+			b.WriteString("y" + a + " := 1\n_ = y" + a + "\n")
+		case "incdec":
+			b.WriteString("xi++\n")
+		case "send":
+			b.WriteString("ch <- 1\n")
+		case "defer":
+			b.WriteString("defer g0()\n")
+		case "go":
+			b.WriteString("go g0()\n")
+		case "var":
+			b.WriteString("var z" + a + " int\n_ = z" + a + "\n")
 		case "break", "continue", "goto":
 			b.WriteString(k + " " + a + "\n")
 		case "fgoto":
@@ -160,7 +174,7 @@ func flowRender(name string, ops [][2]string) string {
 
 var flowCaseTypes = []string{"int", "string", "bool", "float64"}
 
-const flowPrelude = "package p\nvar p bool\nvar sl []int\nvar ch chan int\nvar ifc interface{}\nfunc g0() {}\nfunc gf(func() int) {}\n"
+const flowPrelude = "package p\nvar p bool\nvar xi int\nvar sl []int\nvar ch chan int\nvar ifc interface{}\nfunc g0() {}\nfunc gf(func() int) {}\n"
 
 // flowTypesBatch type-checks many rendered bodies at once and returns diagnostics per body.
 func flowTypesBatch(bodies []flowBody) ([]flowDiag, error) {
@@ -225,6 +239,7 @@ func newFlowBuilder() *flowBuilder {
 	fb.pkg = pkg
 	ti := types.Typ[types.Int]
 	pkg.NewVar(token.NoPos, types.Typ[types.Bool], "p")
+	pkg.NewVar(token.NoPos, ti, "xi")
 	pkg.NewVar(token.NoPos, types.NewSlice(ti), "sl")
 	pkg.NewVar(token.NoPos, types.NewChan(types.SendRecv, ti), "ch")
 	pkg.NewVar(token.NoPos, types.NewInterfaceType(nil, nil), "ifc")
@@ -278,6 +293,22 @@ func (fb *flowBuilder) build(ops [][2]string) (d flowDiag, fail string) {
 			cb.End()
 		case "call":
 			cb.Val(ref("g0")).Call(0).EndStmt()
+		case "assign":
+			cb.VarRef(ref("xi")).Val(1).Assign(1)
+		case "define":
+			cb.DefineVarStart(token.NoPos, "y"+a).Val(1).EndInit(1)
+			cb.VarRef(nil).Val(ref("y" + a)).Assign(1)
+		case "incdec":
+			cb.VarRef(ref("xi")).IncDec(token.INC)
+		case "send":
+			cb.Val(ref("ch")).Val(1).Send()
+		case "defer":
+			cb.Val(ref("g0")).Call(0).Defer()
+		case "go":
+			cb.Val(ref("g0")).Call(0).Go()
+		case "var":
+			cb.NewVar(ti, "z"+a)
+			cb.VarRef(nil).Val(ref("z" + a)).Assign(1)
 		case "break", "continue", "goto":
 			var l *gogen.Label
 			if a != "" {
@@ -508,6 +539,7 @@ func runC10(tier, replay string) {
 		{name: "label-goto-closure-7", cfg: flowCfg(7, 4, `{"L","M"}`, `{"for","closure"}`, `{"ret","call"}`, `{"goto","label","continue"}`, 3)},
 		{name: "tswitch-fallthrough-7", cfg: flowCfg(7, 4, `{"L"}`, `{"switch","tswitch"}`, `{"ret","panic"}`, `{"fallthrough","break"}`, 2)},
 		{name: "forward-goto-7", cfg: flowCfg(7, 4, `{"L"}`, `{"for","ifb","switch","closure"}`, `{"ret","call"}`, `{"fgoto","label"}`, 3)},
+		{name: "simple-statements-5", cfg: flowCfg(5, 3, `{"L"}`, `{"ifb","for","closure"}`, `{"ret","assign","define","incdec","send","defer","go","var"}`, `{}`, 3)},
 	}
 	if tier == "thorough" {
 		confs = []flowConf{
